@@ -41,7 +41,10 @@ Forms == <<
   F("x.d{a\r\nbc}",      "x",   "",  <<"d">>,      <<>>,                       <<"a", "bc">>,        FALSE, FALSE),
   F("x[d. t=v]",         "x",   "",  <<>>,         <<<<"d", BOOL>>, <<"t", "v">>>>, NOTEXT,            FALSE, FALSE),
   F("p[disabled]#i",     "p",   "i", <<>>,         <<<<"disabled", BOOL>>>>,   NOTEXT,               FALSE, FALSE),
-  F("em[v=1 w]{t}",      "em",  "",  <<>>,         <<<<"v", "1">>, <<"w", "">>>>, <<"t">>,            FALSE, FALSE) >>
+  F("em[v=1 w]{t}",      "em",  "",  <<>>,         <<<<"v", "1">>, <<"w", "">>>>, <<"t">>,            FALSE, FALSE),
+  F("em[t=v !m]",        "em",  "",  <<>>,         <<<<"t", "v">>>>,           NOTEXT,               FALSE, FALSE),     \* an implied attribute without value is not printed
+  F("x[!m]",             "x",   "",  <<>>,         <<>>,                       NOTEXT,               FALSE, FALSE),
+  F("p.c[!m u=w !g]",    "p",   "",  <<"c">>,      <<<<"u", "w">>>>,           NOTEXT,               FALSE, FALSE) >>
 FormKey(k) == "F" \o ToString(k)
 KeyIdx(key) == CHOOSE k \in 1..Len(Forms) : FormKey(k) = key
 
